@@ -2,6 +2,7 @@ package run
 
 import (
 	"bytes"
+	"context"
 	"encoding/json"
 	"fmt"
 	"io/ioutil"
@@ -53,6 +54,29 @@ func (r *Runner) StopAPI() {
 // Call performs one JSON-RPC request; result is decoded into out (may be nil). Returns the JSON-RPC error code (0 = ok).
 func (r *Runner) Call(method string, params interface{}, out interface{}) (int, error) {
 	return CallURL(r.APIURL, method, params, out)
+}
+
+// CallCancel starts a request and returns a function that abandons it (the client hangs up: the server's
+// request context is cancelled) and a channel that is closed when the request has returned.
+func (r *Runner) CallCancel(method string, params interface{}) (cancel func(), done chan struct{}) {
+	body, _ := json.Marshal(map[string]interface{}{"jsonrpc": "2.0", "id": 1, "method": method, "params": params})
+	ctx, cf := context.WithCancel(context.Background())
+	done = make(chan struct{})
+	tr := &http.Transport{DisableKeepAlives: true}
+	go func() {
+		defer close(done)
+		req, err := http.NewRequestWithContext(ctx, "POST", r.APIURL, bytes.NewReader(body))
+		if err != nil {
+			return
+		}
+		req.Header.Set("Content-Type", "application/json")
+		resp, err := (&http.Client{Transport: tr}).Do(req)
+		if err == nil {
+			ioutil.ReadAll(resp.Body)
+			resp.Body.Close()
+		}
+	}()
+	return func() { cf(); tr.CloseIdleConnections() }, done
 }
 
 // CallURL is Call for an arbitrary endpoint.
